@@ -693,15 +693,10 @@ impl C26 {
                 out.bump("orders_with_wake_ups", 1);
             }
         }
-        // a when/2 goal whose condition mentions two or more variables runs once per variable
-        // when one unification binds several of them, or after two of them were aliased
-        // (recorded defect): violations in such cases are keyed apart
-        let hazard = ops.iter().any(|o| o["op"] == "when" && cond_vars(&o["cond"]).len() >= 2);
-        if hazard {
+        if ops.iter().any(|o| o["op"] == "when" && cond_vars(&o["cond"]).len() >= 2) {
+            // (these ran their goal once per variable before the repair recorded in
+            // known_findings.json; they are checked strictly now)
             out.bump("cases_with_multi_variable_when_condition", 1);
-            for v in out.violations.iter_mut() {
-                v.key = format!("when-multi-variable-condition:{}", v.key);
-            }
         }
         out.nontrivial = orders.len() > 1;
         out.transcript = summary.join(" ");
